@@ -23,7 +23,7 @@ FOREIGN_NAMES = {"": ["zz", "num", "zz+", "a+"], "g": ["zz", "cou", "zz+", "c+"]
                  "dc": ["zz", "zz+"], "ld.0": ["zz", "zz+"], "od": ["zz", "zz+"], "dd.k": ["zz", "zz+"], "m": ["zz", "zz+"]}
 # ('+' is the list-append suffix: on an unknown key, or on a key that is not list-typed, it is as foreign as any other key)
 FOREIGN_KINDS = ["int", "none", "dict", "str", "empty-dict", "nested-empty-dict"]
-REQUIRED_KEYS = ["a", "g.b", "dc.a", "m.init_args.w", "ld.0.a", "fit.x", "subcommand+fit", "m", "od.a", "dd.k.a"]
+REQUIRED_KEYS = ["a", "g.b", "dc.a", "m.init_args.w", "ld.0.a", "fit.x", "subcommand+fit", "m", "od.a", "dd.k.a", "opt.init_args.schedule.lr"]
 REMOVAL_KINDS = ["removed", "none"]
 CHANNELS = ["object", "parse_string", "cfg_text", "argv", "env", "validate"]
 
@@ -50,6 +50,11 @@ def _parser():
     p.add_argument("--ld", type=List[Req], default=[])
     p.add_argument("--od", type=Optional[Req], default=None)
     p.add_argument("--dd", type=Dict[str, Req], default={})
+    from ..fixtures import BaseOpt
+
+    p.add_argument("--base_lr", type=float, default=0.1)
+    p.add_argument("--opt", type=BaseOpt, default=None)
+    p.link_arguments("base_lr", "opt.init_args.lr")  # the target's leaf name equals a required field of opt's dataclass parameter
     fit = ArgumentParser(exit_on_error=False)
     fit.add_argument("--x", type=int, required=True)
     fit.add_argument("--y", type=int, default=1)
@@ -65,7 +70,8 @@ def _parser():
 def _valid():
     # (sections keep a second key so that removing the required one does not leave an empty mapping, which Optional[...] reads as None)
     return {"a": 1, "g": {"b": 2, "c": 9}, "dc": {"a": 3, "b": 1.5}, "m": {"class_path": "vf.fixtures.NeedsW", "init_args": {"w": 4, "t": 1.5}}, "ld": [{"a": 5, "b": 1.5}],
-            "od": {"a": 7, "b": 1.5}, "dd": {"k": {"a": 8, "b": 1.5}}, "subcommand": "fit", "fit": {"x": 6, "y": 2}, "nd": {"size_total": 2, "label": "m"}}
+            "od": {"a": 7, "b": 1.5}, "dd": {"k": {"a": 8, "b": 1.5}}, "subcommand": "fit", "fit": {"x": 6, "y": 2}, "nd": {"size_total": 2, "label": "m"},
+            "opt": {"class_path": "vf.fixtures.Opt", "init_args": {"schedule": {"lr": 0.5, "steps": 3}, "momentum": 0.9}}}
 
 
 def _node(obj, path):
